@@ -2,9 +2,12 @@
 # Model of the `senpai` plugin (src/oomd/plugins/Senpai.{h,cpp})
 
 Written from the C++ function by function; the name of the C++ function is given with each
-definition.  **This is the code with `fixes/C18-validate-swap.patch` applied** (`validateSwap`
-returns `util < swap_threshold_`); the comparison of the unpatched tree (`>=`) is kept separately
-as `validateSwapUnfixed` so that the defect can be stated (`C18.unfixed_validateSwap_inverted`).
+definition.  **This is the code with `fixes/C18-validate-swap.patch` and
+`fixes/C18-pressure-ms-positive.patch` applied**: `validateSwap` returns `util < swap_threshold_`
+(the comparison of the unpatched tree, `>=`, is kept separately as `validateSwapUnfixed` so that the
+defect can be stated: `C18.unfixed_validateSwap_inverted`), and `init` rejects `pressure_ms <= 0`
+(`initOk`; unpatched, `pressure_ms = 0` divides by zero in `tick`), so the divisions of
+`backoffFactor` / `probeFactor` are by non-zero numbers in every configuration that runs.
 
 What the plugin reads in one tick from one cgroup is a `View` (every accessor of `CgroupContext`
 may be unavailable = `none`); what it writes is a list of `Ev` (libc-boundary writes, in order).
@@ -106,11 +109,10 @@ structure Psi (α : Type) where
   avg60 : α
   total : Int
 
-/-- the keys of memory.stat that `getReclaimableBytes` looks at (the two file keys are mandatory:
-their absence makes the C++ throw – outside this property, see C10) -/
+/-- the keys of memory.stat that `getReclaimableBytes` looks at (`none` = the key is missing) -/
 structure MemStat where
-  activeFile : Int
-  inactiveFile : Int
+  activeFile : Option Int
+  inactiveFile : Option Int
   activeAnon : Option Int
   inactiveAnon : Option Int
 
@@ -163,6 +165,9 @@ inductive Ev
   | reclaim (cg : Nat) (size : Int)                        -- memory.reclaim of cgroup `cg`
   | swappiness (val : Int)                                 -- /proc/sys/vm/swappiness
 deriving DecidableEq, Repr
+
+/-- `Senpai::init` after argument parsing: 0 = plugin constructed (Senpai.cpp:67-87) -/
+def initOk (pressureMs : Int) (meminfoReadable : Bool) : Bool := decide (0 < pressureMs) && meminfoReadable
 
 /-! ## values Senpai reads that `CgroupContext` derives up the hierarchy (CgroupContext.cpp:265-374) -/
 
@@ -272,7 +277,9 @@ def getReclaimableBytes (sys : Sys α) (v : View α) : Option Int :=
   match v.memStat with
   | none => none
   | some s =>
-    let fileCache := s.activeFile + s.inactiveFile
+    match s.activeFile, s.inactiveFile with
+    | some af, some inf =>
+    let fileCache := af + inf
     if sys.swaptotal > 0 ∧ sys.swappiness > 0 then
       match v.effSwapFree with
       | none => none
@@ -283,6 +290,7 @@ def getReclaimableBytes (sys : Sys α) (v : View α) : Option Int :=
           | _, _ => none
         else some fileCache
     else some fileCache
+    | _, _ => none                       -- SYSTEM_ERROR(EINVAL) (fix 0271fcf: no longer throws)
 
 /-- `Senpai::getLimitMinBytes` : unreclaimable + limit_min_bytes, at least memory.min -/
 def getLimitMinBytes (cfg : Cfg α) (sys : Sys α) (v : View α) : Option Int :=
